@@ -91,8 +91,28 @@ def r_reset(P, chk):
         if x["k"] == "CallExpr" and x.get("callee") in ("scan", "token_new", "mmd_assign_line_type"):
             firstcall = x
             break
-    ok = bool(st) and firstcall is not None and any(
-        tz.cfg.block_postdominates(tz.block_of(s), tz.cfg.entry) or tz.cfg.dominates(s["i"], firstcall["i"]) for s in st)
+    # every path from the entry to the first scanning call assigns allow_meta (one store, or one in each branch of a chain)
+    ok = False
+    if st and firstcall is not None:
+        pos = tz.cfg.positions()
+        sblocks = {}
+        for s_ in st:
+            if s_["i"] in pos:
+                sblocks.setdefault(pos[s_["i"]][0], []).append(pos[s_["i"]][1])
+        fb, fi = pos.get(firstcall["i"], (None, None))
+        seen, stack, leak = set(), [tz.cfg.entry], False
+        while stack and fb is not None:
+            b = stack.pop()
+            if b in seen:
+                continue
+            seen.add(b)
+            if b == fb and not any(i < fi for i in sblocks.get(b, ())):
+                leak = True
+                break
+            if b in sblocks:
+                continue
+            stack.extend(tz.cfg.blocks[b].rsucc)
+        ok = fb is not None and not leak
     chk.obligation(rid, "mmd_tokenize_string re-derives allow_meta from the extensions before scanning", ok)
     if not ok:
         chk.violation(rid, "reset:allow_meta", tz.where(), "allow_meta is not re-assigned at the start of mmd_tokenize_string: "
